@@ -81,4 +81,10 @@ theorem zigZagDecode_tie (v : Nat) (h : v < 18446744073709551616) :
     simp only [hodd, if_false]
     omega
 
+/-- first row of a threshold table whose bound exceeds `v` -/
+def tableWidth : List (Nat × Nat) → Nat → Nat → Nat
+  | [], d, _ => d
+  | (t, w) :: rest, d, v => if v < t then w else tableWidth rest d v
+
+
 end LinVerif.Varint
